@@ -499,6 +499,8 @@ class ArgumentParser(ParserDeprecations, ActionsContainer, ArgumentLinking, argp
             ArgumentError: If the parsing fails error and exit_on_error=True.
         """
         skip_validation, skip_required = get_private_kwargs(kwargs, _skip_validation=False, _skip_required=False)
+        # values are adapted in place, thus work on a copy and never on the object of the caller
+        cfg_obj = recreate_branches(cfg_obj)
 
         try:
             cfg = self._parse_defaults_and_environ(defaults, env)
